@@ -1,1 +1,29 @@
-// access to private items of the parent module (compiled only under --cfg rustdds_verif)
+// access to private items of rtps/reader.rs (compiled only under --cfg rustdds_verif)
+use super::*;
+
+impl Reader {
+  pub(crate) fn verif_matched(&self) -> Vec<GUID> {
+    self.matched_writers.keys().copied().collect()
+  }
+  pub(crate) fn verif_digest(&self) -> String {
+    let mw = self
+      .matched_writers
+      .iter()
+      .map(|(g, p)| format!("{:?}:{}", g, p.verif_digest()))
+      .collect::<Vec<_>>()
+      .join(";");
+    let fa = self
+      .fragment_assemblers
+      .iter()
+      .map(|(g, f)| format!("{:?}:{}", g, f.verif_digest()))
+      .collect::<Vec<_>>()
+      .join(";");
+    format!(
+      "R[{mw}] FA[{fa}] hbc={} tot={} inc={}",
+      self.received_heartbeat_count, self.writer_match_count_total, self.offered_incompatible_qos_count
+    )
+  }
+  pub(crate) fn verif_proxy(&self, g: GUID) -> Option<&RtpsWriterProxy> {
+    self.matched_writers.get(&g)
+  }
+}
